@@ -29,6 +29,7 @@ BAD_CONSTRAINTS = [
     ('keysrules', 5), ('valuesrules', [1]), ('schema', 5), ('coerce', 5), ('default_setter', 5), ('rename_handler', 5),
     ('purge_unknown', 'x'), ('require_all', 'x'), ('allow_unknown', 5), ('check_with', 5), ('items', [5]),
     ('coerce', 'nosuchcoercer'), ('check_with', 'nosuchchecker'), ('default_setter', 'nosuchsetter'), ('type', ['integer', 'nosuchtype']),
+    ('type', None), ('items', None), ('schema', None), ('anyof', None), ('keysrules', None), ('regex', None), ('dependencies', None),
     ('is_small', 'yes'), ('is_even', 'yes'), ('is_even', 5),     # custom rules of the pool class, both docstring forms
     ('noneof', [{'nosuchrule': 1}]), ('anyof', [{'type': 'nosuchtype'}]), ('keysrules', {'nosuchrule': 1}), ('valuesrules', {'type': 'nosuchtype'}),
 ]
